@@ -287,6 +287,112 @@ def check_next_states(res, P, spec):
     return n
 
 
+def check_reject_without_state_change(res, P):
+    """Clause (4) — "rejects everything else with an error rather than a state change": a state assignment made after a
+    message was received but *before* its variant was examined is unconditional; if the same message is afterwards matched
+    with a rejecting arm (an arm that yields Err), the rejection leaves a changed state.  Looked for in one method and through
+    receive helpers (a method that receives a message, assigns the state outside any arm on the message and hands the message
+    back).  HIR, so independent of how the match is spelled (match / if let / matches!)."""
+    from pv import hirwalk as hw
+    n = 0
+
+    def is_state_assign(nd):
+        if nd.get("k") != "assign":
+            return False
+        cv = hw.ctor_variant(nd["rhs"])
+        root = nd["lhs"]
+        while isinstance(root, dict) and root.get("k") in ("field", "un", "index"):
+            root = root.get("e") or root.get("a")
+        return bool(cv and cv[0].endswith("::State") and hw.is_local(root, "self"))
+
+    def msg_match_nodes(root):
+        """(match node, has rejecting arm) for every match/if-let whose arms test Message variants."""
+        out = []
+        for nd in hw.walk(root):
+            if nd.get("k") != "match":
+                continue
+            arms = nd.get("arms", [])
+            on_msg = any((hw.pat_variants(a["pat"]) or set()) and any((adt or "").endswith("::Message") for adt, _ in hw.pat_variants(a["pat"])) for a in arms)
+            if not on_msg:
+                continue
+            rej = False
+            for a in arms:
+                for sub in hw.walk(a["body"]):
+                    cv = hw.ctor_variant(sub) if isinstance(sub, dict) else None
+                    if cv and cv[0] == "core::result::Result" and cv[1] == "Err":
+                        rej = True
+            out.append((nd, rej))
+        return out
+
+    def inside(node, container):
+        return any(x is node for x in hw.walk(container))
+
+    methods = {}
+    for module, proto in AGENTS:
+        for role in ("client", "server"):
+            for f in P.find(r"^pallas_network::miniprotocols::%s::%s::\w+(::<.*>)?::\w+$" % (module, role)):
+                if f.b.get("asyncness") and f.hir is not None and f.name not in ("send_message",):
+                    methods[f.path] = f
+    # summary: methods that receive and then assign the state outside every arm on the message
+    def uncond_assigns(f):
+        root = f.hir["root"]
+        recvs = [nd for nd in hw.walk(root) if nd.get("k") == "mcall" and ((nd.get("def") or "").endswith("::recv_message") or (nd.get("def") or "") in helper_paths)]
+        if not recvs:
+            return []
+        mm = msg_match_nodes(root)
+        out = []
+        for nd in hw.walk(root):
+            if isinstance(nd, dict) and is_state_assign(nd):
+                if not any(inside(nd, a["body"]) for m_, _ in mm for a in m_["arms"]):
+                    out.append(hw.ctor_variant(nd["rhs"])[1])
+        return out
+
+    helper_paths = set()
+    changed = True
+    summaries = {}
+    while changed:
+        changed = False
+        for pth, f in methods.items():
+            if f.name == "recv_message":
+                continue
+            ua = uncond_assigns(f)
+            if ua and pth not in helper_paths:
+                helper_paths.add(pth.split("::<")[0])
+                helper_paths.add(pth)
+                summaries[pth] = ua
+                changed = True
+    for pth, f in sorted(methods.items()):
+        if f.name == "recv_message":
+            continue
+        root = f.hir["root"]
+        mm = msg_match_nodes(root)
+        if not mm:
+            continue
+        n += 1
+        bad = None
+        own = summaries.get(pth)
+        for m_, rej in mm:
+            if not rej:
+                continue
+            if own:
+                bad = "assigns %s after receiving and before the message is examined, then rejects some messages" % sorted(set(own))
+            for nd in hw.walk(m_["scrut"]):
+                if nd.get("k") == "mcall" and (nd.get("def") or "") in summaries and (nd.get("def") or "") != pth:
+                    bad = "matches the message returned by %s, which has already assigned %s, and rejects some messages" % (nd.get("name"), sorted(set(summaries[nd["def"]])))
+            # message bound to a local by a helper call earlier in this method
+            for nd in hw.walk(root):
+                if nd.get("k") == "let" and nd.get("init") is not None:
+                    for sub in hw.walk(nd["init"]):
+                        if sub.get("k") == "mcall" and (sub.get("def") or "") in summaries and (sub.get("def") or "") != pth:
+                            bad = "examines a message obtained from %s, which has already assigned %s, and rejects some messages" % (sub.get("name"), sorted(set(summaries[sub["def"]])))
+        key = "reject-keeps-state:%s" % pth.split("miniprotocols::")[-1]
+        if bad:
+            res.violation(key, "%s %s: a rejected message leaves a changed agent state" % (pth, bad), where="%s:%s" % (f.file, f.line), rule="R-ORDER")
+        else:
+            res.ok(key, "R-ORDER", "every state assignment that follows a receive sits in an arm on the received message")
+    return n
+
+
 def run(tier):
     res = Result("C23", tier, level="other")
     spec = json.load(open(os.path.join(VERIF, "spec", "ouroboros.json")))["protocols"]
@@ -400,6 +506,8 @@ def run(tier):
     # (2) next-state clause from the HIR of the agents' async methods
     n_trans = check_next_states(res, P, spec)
     res.floor("send/receive sites with a classified message (next-state clause)", n_trans, 60)
+    n_rej = check_reject_without_state_change(res, P)
+    res.floor("receiving methods inspected for state change before rejection", n_rej, 20)
     res.floor("agents analysed", n_agents, 17)
     res.floor("cells compared", n_cells, 850)
     res.exhaustive = True
